@@ -116,7 +116,7 @@ theorem mul_sem_tr (a b : Flt) : (a.mul b).sem = a.sem := mulWithRm_sem_tr _ _ _
 theorem div_sem_tr (a b : Flt) : (a.div b).sem = a.sem := divWithRm_sem_tr _ _ _
 
 theorem scale_sem_tr (x : Flt) (k : Int) (rm : RM) : (x.scale k rm).sem = x.sem := by
-  unfold Flt.scale
+  unfold Flt.scale Flt.scaleCore
   split
   · rfl
   · exact new_normalize_sem _ _ _ _ _ _
